@@ -86,25 +86,39 @@ func ruleC11Same(r *Run) {
 	// writer side: route.path after the registration step that applies the group (appendGroupInfo, or
 	// appendRoute itself when that step is written in line)
 	agi, gates := pathStep(w, tm)
-	stores := storesToField(agi, tm.path)
-	r.Check(rule, "(*Router).appendGroupInfo:stores path", agi.Pos(), len(stores) >= 1, fmt.Sprintf("%d store(s) to route.path in %s", len(stores), FuncName(agi)))
-	for i, st := range stores {
-		ok, why := isFormatted(w, st.Val, 0)
+	// the values that become route.path: stored by the step itself, or returned by it and stored by appendRoute
+	type finalPath struct {
+		val ssa.Value
+		in  ssa.Instruction
+		all bool
+	}
+	var finals []finalPath
+	for _, st := range storesToField(agi, tm.path) {
 		all, _ := allPathsHit(agi, nil, func(in ssa.Instruction) bool { return in == ssa.Instruction(st) })
-		r.Check(rule, fmt.Sprintf("(*Router).appendGroupInfo:route.path#%d", i+1), w.InstrPos(st), ok && (all || len(stores) > 1),
+		if c, isCall := st.Val.(*ssa.Call); isCall && agi == tm.appendRoute {
+			if sc := staticCallee(c); sc != nil && w.InModule(sc) && sc != w.Fn("rux", "Router.formatPath") && sc.Signature.Results().Len() == 1 {
+				// route.path = r.step(...): what the step returns
+				eachInstr(sc, func(in ssa.Instruction) {
+					if ret, ok := in.(*ssa.Return); ok && len(ret.Results) == 1 {
+						finals = append(finals, finalPath{ret.Results[0], in, all})
+					}
+				})
+				continue
+			}
+		}
+		finals = append(finals, finalPath{st.Val, st, all})
+	}
+	r.Check(rule, "(*Router).appendGroupInfo:stores path", agi.Pos(), len(finals) >= 1, fmt.Sprintf("%d value(s) become route.path in %s", len(finals), FuncName(agi)))
+	for i, fpv := range finals {
+		ok, why := isFormatted(w, fpv.val, 0)
+		r.Check(rule, fmt.Sprintf("(*Router).appendGroupInfo:route.path#%d", i+1), w.InstrPos(fpv.in), ok && (fpv.all || len(finals) > 1),
 			map[bool]string{true: "registered path normalised by the same formatPath on the same router", false: "registered path not normalised by formatPath: " + why}[ok])
 	}
 	// the group prefix is applied before the final normalisation
 	prefF := w.Field("rux", "Router", "currentGroupPrefix")
 	okPref := false
-	for _, st := range stores {
-		var leaves []ssa.Value
-		if ph, isPhi := st.Val.(*ssa.Phi); isPhi {
-			leaves = ph.Edges
-		} else {
-			leaves = []ssa.Value{st.Val}
-		}
-		for _, lf := range leaves {
+	for _, fpv := range finals {
+		for _, lf := range valueLeaves(fpv.val) {
 			if c, isCall := lf.(*ssa.Call); isCall && len(c.Call.Args) == 2 {
 				if b, isB := c.Call.Args[1].(*ssa.BinOp); isB && b.Op == token.ADD && isLoadOfField(b.X, prefF) {
 					okPref = true
@@ -825,7 +839,7 @@ func init() {
 func pathStep(w *World, tm *tierModel) (*ssa.Function, []ssa.Instruction) {
 	ar := tm.appendRoute
 	var gates []ssa.Instruction
-	if agi := w.FnOpt("rux", "Router.appendGroupInfo"); agi != nil {
+	if agi := w.FnOpt("rux", "Router.appendGroupInfo"); agi != nil && len(storesToField(agi, tm.path)) > 0 {
 		for _, c := range callsToFn(ar, agi) {
 			gates = append(gates, c)
 		}
